@@ -10,4 +10,5 @@ MODULES = [
     "compu",
     "hierarchy",
     "attribution",
+    "compare",
 ]
